@@ -12,6 +12,7 @@ import (
 	"fmt"
 	"os"
 	"strconv"
+	"strings"
 	"sync"
 	"time"
 
@@ -651,7 +652,10 @@ func main() {
 			}
 			emit(w, c)
 		}
-	case o.Mode == "exhaustive":
+	case strings.HasPrefix(o.Mode, "exhaustive"):
+		// mode = exhaustive/<parts>/<part>
+		parts, part := o.Shards, o.Shard
+		fmt.Sscanf(o.Mode, "exhaustive/%d/%d", &parts, &part)
 		// every size,thr in 0..4 and every outcome vector up to length L; the
 		// shard takes every shards-th vector. v2 gets two partitions of each.
 		L := 9
@@ -662,11 +666,31 @@ func main() {
 				for n := 0; n <= L; n++ {
 					for _, v := range allVecs(n) {
 						k++
-						if k%o.Shards != o.Shard {
+						if k%parts != part {
 							continue
 						}
 						emit(w, wcase{Engine: "v1", Size: size, Thr: thr, Ops: v})
 						emit(w, wcase{Engine: "v2", Size: size, Thr: thr, Chunks: chunkify(r, v)})
+					}
+				}
+				// routing: every (rejected, dlq-fails) vector up to length 5
+				for n := 1; n <= 5 && size <= 3 && thr <= 3; n++ {
+					for m := 0; m < 1<<(2*n); m++ {
+						k++
+						if k%parts != part {
+							continue
+						}
+						rs := make([][2]bool, n)
+						for i := range rs {
+							rs[i] = [2]bool{m>>(2*i)&1 == 1, m>>(2*i+1)&1 == 1}
+						}
+						emitR(w, rcase{Engine: "r1", Size: size, Thr: thr, Recs: rs})
+						cut := r.Range(1, n)
+						bs := [][][2]bool{rs[:cut]}
+						if cut < n {
+							bs = append(bs, rs[cut:])
+						}
+						emitR(w, rcase{Engine: "r2", Size: size, Thr: thr, Batches: bs})
 					}
 				}
 			}
